@@ -328,6 +328,14 @@ func (d *ColumnDetector) findVerticalGaps(fragments []text.TextFragment, pageWid
 	// Build histogram of fragment density across X axis
 	// Use 5-point buckets for good resolution
 	bucketSize := 5.0
+
+	// pageWidth comes from the file (/MediaBox): it must not size an allocation
+	// unchecked. Real pages are at most a few thousand buckets wide; for a width
+	// that is negative, not a number or absurdly large no gaps are reported.
+	const maxBuckets = 1 << 20
+	if !(pageWidth >= 0) || pageWidth/bucketSize >= maxBuckets {
+		return nil
+	}
 	numBuckets := int(pageWidth/bucketSize) + 1
 	histogram := make([]int, numBuckets)
 
